@@ -22,14 +22,14 @@ Inductive result :=
 | RErrCanceled      (* f returned an error that Is context.Canceled *)
 | RErrNoRetry       (* f returned an error that As ErrNoRetry *)
 | RCtxCanceled      (* ctx.Done() won the select: context.Canceled *)
-| RGiveUp           (* "final attempt; giving up": returns the last error (before a99379d: nil) *)
+| RGiveUp           (* "final attempt; giving up": returns the last error (before 9155753: nil) *)
 | RLoopExit         (* loop condition false at the top: returns the last error *)
 | RPending.         (* input exhausted: still retrying *)
 Definition result_code (r : result) : Z :=
   match r with RNil => 0 | RErrCanceled => 1 | RErrNoRetry => 2 | RCtxCanceled => 3
              | RGiveUp => 4 | RLoopExit => 5 | RPending => 6 end.
 
-(** does the caller see nil?  [fixed = false]: the code before a99379d, where giving up
+(** does the caller see nil?  [fixed = false]: the code before 9155753, where giving up
     after the horizon returned nil *)
 Definition returns_nil_gen (fixed : bool) (r : result) : bool :=
   match r with RNil => true | RGiveUp => negb fixed | _ => false end.
